@@ -823,6 +823,15 @@ pixman_image_set_alpha_map (pixman_image_t *image,
 	return;
     }
 
+    if (alpha_map == image)
+    {
+	/* An image can't be its own alpha map: that would be the
+	 * shortest possible chain, and the reference it takes on itself
+	 * would keep it alive forever.
+	 */
+	return;
+    }
+
     if (common->alpha_map != (bits_image_t *)alpha_map)
     {
 	if (common->alpha_map)
